@@ -5,6 +5,9 @@ FUNCTIONS = [
     'circus.watcher:Watcher.spawn_process',
     # ... and Popen receives exactly format_args' vector, the configured cwd and env
     'circus.process:Process.spawn',
+    # the vector itself: cmd and string args are substituted first and split afterwards, list args are kept word by word,
+    # one variable table (with this worker's wid) for every substitution
+    'circus.process:Process.format_args',
 ]
 EXCLUDE_CLAUSES = ['post[accounted]:Watcher.spawn_process']
 LEMMAS = []
@@ -21,11 +24,12 @@ FRAMES = [
 ASSUMPTIONS = ['A-PY', 'A-TYPES: declared field sorts (checked at every store inside functions under contract)',
                'T-PSUTIL psutil.Popen = subprocess.Popen executes exactly the argument vector / cwd / env it is given',
                'A-PROCCLS']
-TRUSTED = ['Process.format_args and util.replace_gnu_args (regex substitution, shlex.split / quote): NOT verified -- the '
-           'contract of Process.spawn only states that what they return is what is executed',
+TRUSTED = ['util.replace_gnu_args (regex substitution), shlex.split, shlex.quote: uninterpreted functions (T-RGA, T-SHLEX) -- '
+           'what is proved about format_args is which of them is applied to what, in which order, with which variable table',
            'Process.__init__ (stores its arguments, calls spawn): trusted T-PSUTIL contract']
-NOT_DECIDED = ['the substitution itself: $(circus.wid), unknown variables left verbatim, list arguments kept as given, string '
-               'arguments split by shell quoting rules (format_args / replace_gnu_args are outside the string theories)',
+NOT_DECIDED = ['what replace_gnu_args computes ($(circus.wid) -> the id, unknown variables left verbatim) and what shlex.split '
+               'computes: regex substitution and shell lexing are outside the string theories the solvers decide',
+               'the shell=True branch of format_args (quote / join / shell_args) is outside the precondition',
                'Watcher.__init__ env assembly (copy_env, copy_path)',
                'what execve receives in a real child; uid/gid switching in the preexec function']
 DESIGN_REF = 'DESIGN.md section 8, C13 and 13.3'
@@ -34,5 +38,7 @@ TECHNIQUE = ('contract-based deductive verification (call-site obligations on th
 LEVEL_TEXT = ('Worker ids: >= 1, unused by every listed process, minimal, RuntimeError only when 1..2n are all used. '
               'Watcher.spawn_process constructs the worker from cmd (after variable substitution), args, working_dir, env, '
               'uid, gid, shell, rlimits of the watcher and use_fds = use_sockets. Process.spawn calls Popen exactly once with '
-              'the vector returned by format_args, cwd = working_dir, env = env, close_fds = not use_fds, pipes as configured.')
-LEVEL_NOTE = 'The substitution / shell-splitting functions themselves are trusted, not verified.'
+              'the vector returned by format_args, cwd = working_dir, env = env, close_fds = not use_fds, pipes as configured. '
+              'format_args: substitute-then-split for cmd and string args, list args word by word, one variable table '
+              'carrying this worker\'s wid.')
+LEVEL_NOTE = 'replace_gnu_args / shlex are uninterpreted: structure of format_args proved, their computations not.'
